@@ -37,7 +37,7 @@ def run(ctx):
         text = lvs.schema_text(schema)
         w = {'schema': text}
         tot_alts, max_len_ = lvs.alt_counts(schema)
-        if tot_alts > 60 or max_len_ > 8:
+        if tot_alts > 60 or max_len_ > 9:
             ctx.event('schema-skipped-too-large')
             continue
         ref = lvs.Ref(schema, lvs.USER_FNS)
@@ -59,7 +59,7 @@ def run(ctx):
         alphabet = [lvs.lit(t) for t in ref.literals()] + FRESH
         L = min(ref.max_len(), 6)
         # candidate names: those matching some rule, plus near misses (one component changed / dropped / added)
-        names = list(lvs.all_names(alphabet, L, 2500, rng))
+        names = ref.directed_names(rng, alphabet, 3) + list(lvs.all_names(alphabet, L, 2500, rng))
         matching = [n for n in names if ref.match(n)]
         near = []
         for n in matching[:200]:
